@@ -98,14 +98,17 @@ def run(tier, seed, replay=None):
         shapes.append(("countlie3", [[0, 1], [3, 4]], 6, 3))
         shapes.append(("counthuge", [[0, 1], [3, 4]], 6, 2 ** 32 - 1))
         shapes.append(("count70000", [[0, 1], [3, 4]], 6, 70000))
+        # an image that ends inside a sector of an encrypted region: the announced size is the stored size, all of it is served
+        shapes.append(("tailenc", [[0, 2], [4, 5]], 3, None))
+        shapes.append(("tailenc1", [[0, 1], [9, 10]], 5, None))
         for name, regions, sectors, rawcount in shapes:
             for clear in (False, True):
-                spec = {"kind": "redump", "key": rand_key(rng), "regions": regions, "sectors": sectors, "extraLen": 0}
+                spec = {"kind": "redump", "key": rand_key(rng), "regions": regions, "sectors": sectors, "extraLen": (100 if name == "tailenc" else 2047) if name.startswith("tailenc") else 0}
                 if rawcount is not None:
                     spec["rawCount"] = rawcount
                 c = {"name": "%s-%s" % (name, "clear" if clear else "keep"), "spec": spec, "clear": clear,
                      "cuts": [8 + 8 * len(regions), 0xF70, 0x1070], "cut": rng.choice([[], [3, 2048, 5]])}
-                c["ops"] = ops_for(rng, min(sectors, 14), 0, regions[:6], False, nseq=15)
+                c["ops"] = ops_for(rng, min(sectors, 14), spec["extraLen"], regions[:6], False, nseq=15)
                 cases.append(c)
         # 3k3y views: masking of [0xF70, 0x1070) over the decrypting view and over an already decrypted image
         for wrap, kind in (("over-enc", "3k3y-enc"), ("over-raw", "3k3y-dec")):
